@@ -148,7 +148,20 @@ pub fn rect_class(m: usize, n: usize, f32: bool) -> BoxedStrategy<(String, Mat)>
                 })
                 .boxed(),
         ));
-        opts.push((1, (int_mat(m, n, -9, 9), cond_mat(m, n, 1.0)).prop_map(|(i, c)| ("integer".to_string(), c.scale(12.0).add(&i).map(|x| x.round()))).boxed()));
+        // integer valued with full column rank by construction: a diagonally dominant n x n block on top of random rows
+        opts.push((
+            1,
+            int_mat(m, n, -9, 9)
+                .prop_map(move |i| {
+                    let mut a = i.clone();
+                    for r in 0..n {
+                        let s: f64 = (0..n).filter(|c| *c != r).map(|c| i.at(r, c).abs()).sum();
+                        a.set(r, r, if i.at(r, r) < 0.0 { -(s + 1.0) } else { s + 1.0 });
+                    }
+                    ("integer".to_string(), a)
+                })
+                .boxed(),
+        ));
     }
     if m < n {
         opts.push((
@@ -480,6 +493,7 @@ fn check_svd(case: &DecompCase, ctx: &mut Ctx) -> Result<(), Fail> {
 pub fn property() -> Property {
     Property {
         id: "C01",
+        quick_mult: 40,
         rule: "matrices are constructed, not filtered: U diag(s) V^T with Householder-built orthogonal factors and a chosen spectrum (cond <= 1e6, f32: 1e3), diagonal, triangular, signed permutation, orthogonal, low-rank+ridge, integer diagonally dominant with permuted rows, zero leading block with negative alternatives, zero rows/columns inside a full-rank whole, graded, Q diag(l) Q^T (SPD / indefinite), exactly rank-deficient with known null space; each optionally rescaled by 10^[-12,12]; right-hand sides with 1..4 columns, random or in range(A). non-trivial = min(m,n) >= 2 and A is not a multiple of the identity; distinct = distinct serialised case",
         assumptions: vec![
             format!("residual bounds are C*eps*max(m,n)*norm with C = {} (calibrated: the unchanged algorithms stay below 4 in these units at unit scale)", C),
